@@ -149,8 +149,15 @@ pub fn c08_shrink_grow() -> R {
 
 pub fn c09_invalid_names() -> R {
     let long: String = "x".repeat(32);
+    // refused while the directory has spare slots, and while it is exactly full (a refusal must
+    // not have allocated a directory sector first)
+    for (v, prefill) in [(Version::V3, 0usize), (Version::V3, 3), (Version::V3, 7), (Version::V4, 31)] {
     for name in ["a:b", "a!b", "a\\b", long.as_str()] {
-        let (buf, mut c) = fresh(Version::V3);
+        let (buf, mut c) = fresh(v);
+        for i in 0..prefill {
+            if i % 2 == 0 { c.create_storage(format!("/p{:02}", i)).unwrap(); } else { drop(c.create_stream(format!("/p{:02}", i)).unwrap()); }
+        }
+        c.flush().unwrap();
         let before = buf.snapshot();
         let p = format!("/{}", name);
         let r = no_panic("create_storage", || c.create_storage(&p))?;
@@ -170,9 +177,15 @@ pub fn c09_invalid_names() -> R {
             Err(e) if e.kind() == std::io::ErrorKind::InvalidInput => {}
             other => return Err(format!("create_storage_all -> {:?}", other)),
         }
-        if buf.snapshot() != before {
-            return Err(format!("refused creation of {:?} changed the bytes", name));
+        let r = no_panic("create_new_stream", || c.create_new_stream(&p).map(|_| ()))?;
+        match r {
+            Err(e) if e.kind() == std::io::ErrorKind::InvalidInput => {}
+            other => return Err(format!("create_new_stream({:?}) -> {:?}", p, other)),
         }
+        if buf.snapshot() != before {
+            return Err(format!("{:?} with {} objects in the root: refused creation of {:?} changed the bytes ({} -> {} bytes)", v, prefill, name, before.len(), buf.snapshot().len()));
+        }
+    }
     }
     Ok(())
 }
@@ -533,6 +546,7 @@ pub fn all() -> Vec<(&'static str, &'static str, fn() -> R)> {
         ("C15", "small_cycle", c15_small_cycle),
         ("C11", "length_near_u64_max", c11_length_near_u64_max),
         ("C11", "failed_removal_rollback", c11_failed_removal_rollback),
+        ("C11", "type_flips", c11_type_flips),
         ("C05", "readonly_on_absurd_lengths", c05_readonly_on_absurd_lengths),
         ("C06", "foreign_overlong_chain", c06_foreign_overlong_chain),
         ("C08", "foreign_free_garbage", c08_foreign_free_garbage),
@@ -1412,6 +1426,82 @@ pub fn c10_refusals_on_deviating_files() -> R {
             if after != before {
                 let d = after.iter().zip(before.iter()).position(|(x, y)| x != y);
                 return Err(format!("{:?} file with tolerated deviations on /data and /d: the refused call [{}] changed the bytes (first difference at offset {:?}, length {} -> {})", v, label, d, before.len(), after.len()));
+            }
+        }
+    }
+    Ok(())
+}
+
+
+/// The object-type byte of an entry flipped (a non-empty storage marked as a stream, a stream
+/// marked as a storage, either marked as root / unallocated / garbage): whatever open accepts,
+/// every mutation addressed at that entry or at its former children returns Ok or Err.
+pub fn c11_type_flips() -> R {
+    for v in [Version::V3, Version::V4] {
+        let sl = v.sector_len();
+        let (buf, mut c) = fresh(v);
+        c.create_storage("/d").unwrap();
+        c.create_stream("/d/x").unwrap().write_all(&[1u8; 300]).unwrap();
+        c.create_storage("/d/e").unwrap();
+        c.create_stream("/s").unwrap().write_all(&[2u8; 5000]).unwrap();
+        c.create_stream("/m").unwrap().write_all(&[3u8; 100]).unwrap();
+        c.create_storage("/empty").unwrap();
+        drop(c);
+        let base = buf.snapshot();
+        for name in ["d", "s", "m", "empty"] {
+            let o = find_entry(&base, sl, name).ok_or("entry not found")?;
+            for ty in [0u8, 1, 2, 5, 3, 0xFF] {
+                if base[o + 66] == ty { continue; }
+                for strict in [false, true] {
+                    for script in 0..5 {
+                        let mut bytes = base.clone();
+                        bytes[o + 66] = ty;
+                        let what = format!("{:?} /{} type byte := {} ({}) script {}", v, name, ty, if strict { "strict" } else { "permissive" }, script);
+                        let b = SharedBuf::new(bytes);
+                        let opened = no_panic(&format!("open {}", what), || if strict { CompoundFile::open_strict(b) } else { CompoundFile::open(b) })?;
+                        let mut c = match opened { Ok(c) => c, Err(_) => continue };
+                        let p = format!("/{}", name);
+                        no_panic(&what, || {
+                            match script {
+                                0 => { let _ = c.remove_stream(&p); let _ = c.remove_storage(&p); let _ = c.remove_storage_all(&p); }
+                                1 => {
+                                    if let Ok(mut s) = c.open_stream(&p) {
+                                        let mut v = Vec::new();
+                                        let _ = (&mut s).take(10_000).read_to_end(&mut v);
+                                        let _ = s.set_len(10);
+                                        let _ = s.set_len(6000);
+                                        let _ = s.write_all(&[9u8; 100]);
+                                        let _ = s.flush();
+                                    }
+                                    let _ = c.remove_stream(&p);
+                                }
+                                2 => {
+                                    let _ = c.create_stream(format!("{}/new", p)).map(|_| ());
+                                    let _ = c.create_storage(format!("{}/dir", p));
+                                    let _ = c.remove_stream("/d/x");
+                                    let _ = c.remove_storage("/d/e");
+                                    let _ = c.remove_storage(&p);
+                                }
+                                3 => {
+                                    let _ = c.create_stream(&p).map(|mut s| s.write_all(&[7u8; 4500]));
+                                    let _ = c.create_storage(&p);
+                                    let _ = c.set_state_bits(&p, 1);
+                                    let _ = c.set_storage_clsid(&p, uuid::Uuid::from_u128(1));
+                                    let _ = c.touch(&p);
+                                }
+                                _ => {
+                                    let _ = c.remove_storage_all("/d");
+                                    let _ = c.remove_stream("/s");
+                                    let _ = c.remove_stream("/m");
+                                    let _ = c.remove_storage("/empty");
+                                }
+                            }
+                            let _ = c.walk().count();
+                            let _ = c.read_storage("/d").map(|i| i.count());
+                            let _ = c.flush();
+                        })?;
+                    }
+                }
             }
         }
     }
